@@ -39,6 +39,32 @@ let parse_pfx tok =
   | [a; l] -> (bits_of_hex a, int_of_string l)
   | _ -> failwith "addr/len expected"
 
+(* a hexadecimal numeral of any length (the octets of a community) as N *)
+let n_of_hex (s : string) : BinNums.coq_N =
+  let bits = bits_of_hex s in   (* most significant first *)
+  Stdlib.List.fold_left (fun (acc : BinNums.coq_N) b ->
+      match acc, b with
+      | BinNums.N0, false -> BinNums.N0
+      | BinNums.N0, true -> BinNums.Npos BinNums.Coq_xH
+      | BinNums.Npos p, false -> BinNums.Npos (BinNums.Coq_xO p)
+      | BinNums.Npos p, true -> BinNums.Npos (BinNums.Coq_xI p)) BinNums.N0 bits
+
+(* the community-carrying attributes of an announcement, in the order of the case line
+   (= the order in the UPDATE): '-' | item/item/..; item = '*' (where the other attributes
+   stand: nothing to the filter) | u32,u32,.. (COMMUNITIES, decimal) | K=hex,hex,.. with
+   K = s (COMMUNITIES, 8 digits) e (EXTENDED, 16) l (LARGE, 24) x (IPv6 extended, 40) *)
+let cattrs_of_tok (tok : string) : rq_cattr list =
+  if tok = "-" then [] else
+  Stdlib.List.filter_map (fun item ->
+      if item = "*" then None
+      else match String.index_opt item '=' with
+        | None -> Some (CStd, Stdlib.List.map (fun c -> n_of_int (int_of_string c)) (String.split_on_char ',' item))
+        | Some _ ->
+            let kind = match item.[0] with 's' -> CStd | 'e' -> CExt | 'l' -> CLarge | 'x' -> CIp6 | _ -> failwith "community kind" in
+            let vals = String.sub item 2 (String.length item - 2) in
+            Some (kind, if vals = "" then [] else Stdlib.List.map n_of_hex (String.split_on_char ',' vals)))
+    (String.split_on_char '/' tok)
+
 let bytes_of_string (s : string) = Stdlib.List.init (String.length s) (fun i -> n (Char.code s.[i]))
 
 (* [explained]: print the model's token as the expected one wherever a recorded
@@ -49,7 +75,7 @@ let run_case_with (explained : bool) (line : string) : string =
   let peers : (int * BinNums.coq_N option option) list ref = ref [] in
   let tbl : (int * rq_attrs) list ref = ref [] in
   let reg (m : BinNums.coq_N) = try Stdlib.List.assoc (int_of_n m) !peers with Not_found -> None in
-  let attrs (t : BinNums.coq_N) = try Stdlib.List.assoc (int_of_n t) !tbl with Not_found -> { pa_path = []; pa_comms = [] } in
+  let attrs (t : BinNums.coq_N) = try Stdlib.List.assoc (int_of_n t) !tbl with Not_found -> { pa_path = []; pa_cattrs = [] } in
   let mo = ref [] and so = ref [] and cl = ref [] in
   let emit a b c = mo := a :: !mo; so := b :: !so; cl := c :: !cl in
   let show_entry v6 (e : rq_entry) =
@@ -80,9 +106,20 @@ let run_case_with (explained : bool) (line : string) : string =
         let fam = i 2 in
         let (bits, len) = parse_pfx (t 3) in
         let tag = i 4 in
-        let path = if t 5 = "-" then [] else Stdlib.List.map (fun h -> if h = "s" then HSeg else HAsn (n (int_of_string h))) (String.split_on_char ',' (t 5)) in
-        let comms = if t 6 = "-" then [] else Stdlib.List.map (fun c -> n (int_of_string c)) (String.split_on_char ',' (t 6)) in
-        tbl := (tag, { pa_path = path; pa_comms = comms }) :: Stdlib.List.remove_assoc tag !tbl;
+        (* the segments of the AS_PATH as the harness encodes them: runs of AS numbers are AS_SEQUENCE
+           segments, 's' an AS_SET, 'n' ends a sequence segment (the next AS number starts a new one) *)
+        let segs =
+          if t 5 = "-" then [] else begin
+            let out = ref [] and run = ref [] in
+            let flush () = if !run <> [] then (out := SegSeq (Stdlib.List.rev !run) :: !out; run := []) in
+            Stdlib.List.iter (fun h ->
+                if h = "s" then (flush (); out := SegOther :: !out)
+                else if h = "n" then flush ()
+                else run := n (int_of_string h) :: !run) (String.split_on_char ',' (t 5));
+            flush (); Stdlib.List.rev !out end in
+        let path = rq_hops segs in
+        let cattrs = cattrs_of_tok (t 6) in
+        tbl := (tag, { pa_path = path; pa_cattrs = cattrs }) :: Stdlib.List.remove_assoc tag !tbl;
         let key = ((n fam, rq_code (take len bits)), n (i 1)) in
         advance (OUpdate (RibModel.UBulk [ { RibModel.p_key = key; RibModel.p_active = true; RibModel.p_attrs = n tag } ]));
         emit "-" "-" "."
